@@ -123,7 +123,10 @@ fn write_merged_to_disk(
   path_map: HashMap<String, PathBuf>,
 ) -> Result<()> {
   for (id, snaps) in merged {
-    let path = &path_map[&id];
+    // a snapshot whose test case file is gone has nowhere to be written: leave it alone
+    let Some(path) = path_map.get(&id) else {
+      continue;
+    };
     if !path.exists() {
       std::fs::create_dir(path)?;
     }
